@@ -314,6 +314,15 @@ func (h *DNSHandler) putMDNSCache(mac net.HardwareAddr, id uint16, ipv4 []packet
 		}
 		l.Write()
 	}
+	// the caller of ProcessMDNS owns the slices it gets back: the cache keeps its own copies
+	clone := func(l []packet.IPNameEntry) []packet.IPNameEntry {
+		c := append([]packet.IPNameEntry(nil), l...)
+		for i := range c {
+			c[i].Addr.MAC = packet.CopyMAC(c[i].Addr.MAC)
+		}
+		return c
+	}
+	ipv4, ipv6 = clone(ipv4), clone(ipv6)
 	h.mutex.Lock()
 	key := make([]byte, 6+2)
 	copy(key, mac)
